@@ -95,7 +95,7 @@ FAMILIES = {
 KINDS = {
     "C01": {"ledger", "O"}, "C02": {"O"}, "C03": {"O", "K", "HBL"}, "C04": {"corrupt", "A", "HB", "ledger", "O"}, "C05": {"ledger", "O"},
     "C06": {"stuck", "A"}, "C07": {"A", "HB", "M"}, "C08": {"O"}, "C09": {"O", "A", "stuck", "ledger"}, "C10": {"O"},
-    "C11": {"O", "stuck"}, "C12": {"O", "K"}, "C13": {"O", "A", "ledger", "stuck", "K"}, "C14": {"O", "K", "stuck"},
+    "C11": {"O", "stuck"}, "C12": {"O", "K"}, "C13": {"O", "A", "ledger", "stuck", "K", "deadline"}, "C14": {"O", "K", "stuck"},
     "C15": {"O", "A", "ledger", "stuck", "HB"}, "C16": {"O", "A", "stuck"}, "C17": {"M", "HBL"}, "C19": {"O", "K"},
 }
 
@@ -234,6 +234,25 @@ def judge(pid, cap, spec, lines, threads):
     verdict = next((l for l in lines if l.startswith("V ")), "V ?")
     if verdict.startswith("V stuck") or verdict.startswith("V overrun"):
         fails.append(("stuck", "the execution cannot go on: " + verdict[2:] + " (threads blocked for ever while every other thread has finished or is blocked)"))
+    # deadlines: a timed call reports Timeout only after a clock reading at or past first reading + duration
+    cur = {}
+    for l in lines:
+        f = l.split(" ")
+        if len(f) >= 4 and f[2] == "OPB":
+            d = None
+            if f[3] in ("sendto", "sendoptto") and len(f) >= 6:
+                d = int(f[5])
+            elif f[3] == "recvto" and len(f) >= 5:
+                d = int(f[4])
+            cur[f[1]] = {"d": d, "now": []}
+        elif len(f) >= 9 and f[2] == "NOW" and f[1] in cur:
+            cur[f[1]]["now"].append(int(f[8]))
+        elif len(f) >= 4 and f[2] == "OPE" and f[1] in cur:
+            c = cur.pop(f[1])
+            if c["d"] is not None and f[3] == "err:timeout":
+                if not c["now"] or max(c["now"]) < c["now"][0] + c["d"]:
+                    fails.append(("deadline", "thread %s: Timeout returned although no clock reading reached the deadline (first reading %s + duration %d; readings %s)"
+                                  % (f[1], c["now"][:1], c["d"], c["now"][-4:])))
     r = hb_check(events)
     if r:
         fails.append(("HBL" if "chan.wait_list" in r else "HB", r))
@@ -367,7 +386,8 @@ def explore(prop, tier, seed):
         base = ["seq", "seq spur=1", "rnd %d 150" % (seed * 100 + i), "rnd %d 400 tick=2" % (seed * 100 + i + 50),
                 "seq hold=1:800", "seq hold=0:800 spur=1", "seq hold=1:800 spur=2", "seq hold=0:800"]
         if not quick:
-            base += ["rnd %d %d" % (seed * 1000 + i * 10 + k, 100 + 60 * k) for k in range(12)] + ["rnd %d 300 spur=2" % (seed + i)]
+            base += ["rnd %d %d" % (seed * 1000 + i * 50 + k, 60 + 25 * (k % 20)) for k in range(60)] + \
+                    ["rnd %d 300 spur=2" % (seed + i), "rnd %d 200 spur=1 tick=3" % (seed + i + 7), "rnd %d 500 hold=1:300" % (seed + i + 9)]
         jobs.append(("%s-%d" % (fam, i), cap, cls, threads, base))
     # first pass: base schedules; second pass: single preemptions derived from the seq trace
     import concurrent.futures as cf
@@ -378,7 +398,7 @@ def explore(prop, tier, seed):
         for f in futs_:
             allres.extend(f.result())
     jobs2 = []
-    per = 10 if quick else 80
+    per = 10 if quick else 400
     for r in allres:
         if r[2] == "seq":
             j = next(j for j in jobs if j[0] == r[0])
